@@ -24,6 +24,7 @@ AC = C['req_echo_release'][1][1][1]
 RQ_PDU = C['req_echo_release'][1][0][1]
 AC_PDU = C['acc_echo_release'][1][1][1]
 ECHO = C['acc_echo_release'][1][2][1]
+P_STORE_FIRST = prov._store_rq(48)[0].encode()
 VALID = {1: RQ, 2: AC, 3: pdu.AAssociateRjPDU(1, 1, 3).encode(), 4: ECHO, 5: pdu.AReleaseRqPDU().encode(),
          6: pdu.AReleaseRpPDU().encode(), 7: pdu.AAbortPDU(0, 0).encode()}
 
@@ -35,6 +36,8 @@ STATES = {
     6: (True, [('peer', RQ, 0), ('user', AC_PDU, 1)], 1, 1, True),
     7: (True, [('peer', RQ, 0), ('user', AC_PDU, 1), ('user', pdu.AReleaseRqPDU(), 1)], 2, 2, True),
     13: (True, [('peer', RQ, 0), ('user', pdu.AAssociateRjPDU(1, 1, 1), 1)], 1, 1, False),
+    # established with a DIMSE message half received (first fragment of a multi-fragment C-STORE-RQ)
+    60: (True, [('peer', RQ, 0), ('user', AC_PDU, 1), ('peer', P_STORE_FIRST, 1)], 1, 1, True),
 }
 NATURAL = {1: 2, 2: 5, 3: 5, 4: 6, 5: 6, 6: 7, 7: 6}
 
@@ -70,14 +73,14 @@ def aborted(state, conv, tr):
     if out is None or len(out) != 1 or out[0]['type'] != 7:
         return False
     inds = [i[1] for i in tr.indications if i[0] == 'pdu']
-    if state in (3, 5, 6, 7):
+    if state in (3, 5, 6, 7, 60):
         return len(inds) >= 1 and inds[-1] == 7
     return 7 not in inds
 
 
-@cond(bounds='every waiting state (2, 3, 5, 6, 7, 13; one instance each): a PDU whose type byte is symbolic over all '
+@cond(bounds='every waiting state (2, 3, 5, 6, 7, 13, and 6 with a half-received DIMSE message; one instance each): a PDU whose type byte is symbolic over all '
              'unrecognised values (0, 8..255), with a symbolic reserved byte and a body of 0..6 bytes (symbolic length)',
-      family={'state': [2, 3, 5, 6, 7, 13]}, timeout=180)
+      family={'state': [2, 3, 5, 6, 7, 13, 60]}, timeout=180)
 def unknown_type(t: int, r: int, n: int) -> bool:
     """
     pre: (t == 0 or 8 <= t <= 255) and 0 <= r <= 255 and 0 <= n <= 6
@@ -237,8 +240,8 @@ def raw_body(data: bytes, r: int) -> bool:
     return ok
 
 
-@cond(bounds='every valid PDU kind in every waiting state (42 concrete combinations), followed by the peer closing',
-      family=[dict(kind=k, state=s) for k in range(1, 8) for s in (2, 3, 5, 6, 7, 13)], timeout=120)
+@cond(bounds='every valid PDU kind in every waiting state incl. mid-message (49 concrete combinations), followed by the peer closing',
+      family=[dict(kind=k, state=s) for k in range(1, 8) for s in (2, 3, 5, 6, 7, 13, 60)], timeout=120)
 def any_pdu_any_state(x: int) -> bool:
     """
     pre: x == 0
